@@ -51,6 +51,13 @@ FIRST = {
  'C18-m2': (False, "atom `string.enum-escapes` (enum values containing `<`, `&`, `\"`, `\\\\`) and `string.enum-commas`"),
  'C19-m1': (False, "exact comparison of integer literals in jx.Diff (was float64), integers near 2^53 first in the catalogue, `max length` / `max items` slots"),
  'C19-m2': (True, ""),
+ # third round (six properties, one more change each, after the first 38 were all caught)
+ 'C02-m3': (False, "position `aliasprop`: the shape behind a chain of alias definitions (definitions that are nothing but a $ref), referred to from a required and two optional properties; it also exposed the order-sensitive planning of definitions (fix dc6159c)"),
+ 'C03-m3': (False, "header parameter atoms whose names are not in canonical MIME form (`X-Request-ID`, `ETag`, `x-trace-level`, `Content-MD5`, `x_under_score` ...)"),
+ 'C05-m3': (False, "a canonical valid document that UnmarshalJSON refuses is now a loss (`valid-document-not-decoded`; it used to be left to C02), plus the `aliasprop` position"),
+ 'C06-m3': (True, ""),
+ 'C13-m3': (False, "edits `required-property-added@body.no-properties(map|allOf)`: the schema has no `properties` of its own before the edit"),
+ 'C16-m3': (False, "an empty scanned schema is probed with one document of every JSON kind instead of being left unjudged (`untyped-position`)"),
 }
 
 root = '/verif/seeded'
